@@ -266,7 +266,20 @@ CPOtherSq(o) == <<3 - o[1], o[2]>>                                    \* the blo
 CPTampers ==
   ({"subtreeRoots", "subtreeRootProofs"} \X SeqOps) \cup ({"subtreeRootProof0"} \X NPOps) \cup RowProofTampers \cup
   {<<"ns", "other">>, <<"com", "other">>, <<"com", "otherSq">>, <<"com", "empty">>, <<"root", "other">>, <<"root", "empty">>,
-   <<"proof", "other">>, <<"proof", "otherSq">>}
+   <<"proof", "other">>, <<"proof", "otherSq">>,
+   \* forge the digest of the first subtree root of the first / middle / last ROW of the blob (the forged
+   \* node keeps its namespace range, so it is a well-formed NMT node) AND present the commitment
+   \* recomputed over the forged list: a commitment of nothing in the block
+   <<"forge", "first">>, <<"forge", "middle">>, <<"forge", "last">>}
+
+Forged(sr) == <<"sr", <<"forged", sr>>>>
+\* position (in subtreeRoots) of the first subtree root of row k of object o's honest proof (width 1)
+RowsOfCP(o) == Len(HonestCP(o[1], o[2]).subtreeRootProofs)
+FirstRootOfRow(o, k) ==
+  LET sps == HonestCP(o[1], o[2]).subtreeRootProofs
+      acc[j \in 0..Len(sps)] == IF j = 0 THEN 0 ELSE acc[j - 1] + (sps[j].end - sps[j].start)
+  IN acc[k - 1] + 1
+ForgeRow(o, which) == CASE which = "first" -> 1 [] which = "middle" -> (RowsOfCP(o) \div 2) + 1 [] which = "last" -> RowsOfCP(o)
 
 HonestCPPres(o) == [proof |-> HonestCP(o[1], o[2]), com |-> Commitment(o[1], o[2]), root |-> DataRoot(o[1])]
 
@@ -285,6 +298,10 @@ ApplyCP(t, o, v) ==
     [] t = <<"root", "empty">> -> [v EXCEPT !.root = <<>>]
     [] t = <<"proof", "other">> -> [v EXCEPT !.proof = oth]
     [] t = <<"proof", "otherSq">> -> [v EXCEPT !.proof = HonestCP(CPOtherSq(o)[1], CPOtherSq(o)[2])]
+    [] t[1] = "forge" ->
+         LET i == FirstRootOfRow(o, ForgeRow(o, t[2]))
+             roots == IF i <= Len(p.subtreeRoots) THEN [p.subtreeRoots EXCEPT ![i] = Forged(p.subtreeRoots[i])] ELSE p.subtreeRoots
+         IN [v EXCEPT !.proof.subtreeRoots = roots, !.com = Hash(roots)]
 
 \* ranges [from,to) of one namespace: <<square, from, to>>
 RRObjs == {<<1, 1, 10>>, <<1, 4, 8>>, <<1, 5, 7>>, <<1, 1, 12>>, <<1, 12, 15>>, <<2, 1, 10>>, <<2, 10, 14>>}
